@@ -10,21 +10,27 @@ structure Core where
   phase : Phase
   frag : Nat
   nfrags : Nat
+  key : Nat
+  got : Got
   deriving DecidableEq, Repr
 
-def core (r : Req) : Core := ⟨r.id, r.phase, r.frag, r.nfrags⟩
+def core (r : Req) : Core := ⟨r.id, r.phase, r.frag, r.nfrags, r.key, r.got⟩
 
 structure View where
   cores : List Core
   out : List Out
   transport : Bool
+  listeners : List (Nat × Nat)
 
-def view (st : St) : View := ⟨st.reqs.map core, st.out, st.transport⟩
+def view (st : St) : View := ⟨st.reqs.map core, st.out, st.transport, st.listeners⟩
 
 def View.upd (v : View) (i : Nat) (g : Core → Core) : View :=
   { v with cores := v.cores.map fun c => if (c.id == i) = true then g c else c }
 
 def View.emit (v : View) (o : Out) : View := { v with out := v.out ++ [o] }
+
+/-- the done-callback of the response future removes the request's listener -/
+def View.dropL (v : View) (i : Nat) : View := { v with listeners := v.listeners.filter (·.1 != i) }
 
 theorem core_setHold (r : Req) (l : Lock) (b : Bool) : core (setHold r l b) = core r := by cases l <;> rfl
 
@@ -95,17 +101,17 @@ theorem View.upd_id (v : View) (i : Nat) : v.upd i (fun c => c) = v := by
 def toDone (c : Core) : Core := { c with phase := .done }
 
 theorem view_finish (st : St) (i : Nat) (o : Outcome) :
-    view (finish st i o) = ((view st).upd i toDone).emit (.done i o) := by
+    view (finish st i o) = (((view st).upd i toDone).dropL i).emit (.done i o) := by
   unfold finish
   simp only []
   have h := view_updReq st i (fun r => { r with phase := .done }) toDone (fun _ => rfl)
-  simp only [view, emit, View.emit, View.upd] at h ⊢
+  simp only [view, emit, View.emit, View.upd, View.dropL] at h ⊢
   simp only [updReq] at h ⊢
-  injection h with h1 h2 h3
+  injection h with h1 h2 h3 h4
   rw [h1]
 
 theorem view_unwind (st : St) (i : Nat) (o : Outcome) :
-    view (unwind st i o) = ((view st).upd i toDone).emit (.done i o) := by
+    view (unwind st i o) = (((view st).upd i toDone).dropL i).emit (.done i o) := by
   unfold unwind
   rw [view_finish, view_unwindLock, view_unwindLock, view_unwindLock]
 
@@ -200,7 +206,7 @@ inductive MicroStep (v : View) (i : Nat) (c0 : Core) : View → Prop
   | write (s : Nat) (hp : c0.phase = .waitT) (ht : v.transport = true) :
       MicroStep v i c0 ((v.emit (.write i c0.frag s c0.nfrags)).upd i fun c => { c with phase := .waitAck })
   | fin (o : Outcome) (hp : c0.phase = .sendfrag ∨ c0.phase = .waitRsp) :
-      MicroStep v i c0 ((v.upd i toDone).emit (.done i o))
+      MicroStep v i c0 (((v.upd i toDone).dropL i).emit (.done i o))
 
 theorem micro_view (st : St) (i : Nat) (r : Req) (hg : getReq st i = some r) :
     MicroStep (view st) i (core r) (view (runReq 1 st i)) := by
